@@ -63,8 +63,8 @@ theorem noCycle_of_allTerminate {g : FlowGrid} {f : Nat} (hT : AllTerminate g f)
 theorem drainsThrough_eq_insert {g : FlowGrid} {fuel : Nat} (hT : AllTerminate g fuel) {j : Nat}
     (hj : j < g.ntot.toNat) :
     drainsThrough g (j : Int) =
-      insert j ((Finset.range g.ntot.toNat).filter fun i => onPath g fuel (i : Int) (j : Int) = true) ∧
-    j ∉ (Finset.range g.ntot.toNat).filter fun i => onPath g fuel (i : Int) (j : Int) = true := by
+      insert j ((Finset.range g.ntot.toNat).filter fun (i : Nat) => onPath g fuel (i : Int) (j : Int) = true) ∧
+    j ∉ (Finset.range g.ntot.toNat).filter fun (i : Nat) => onPath g fuel (i : Int) (j : Int) = true := by
   have hj0 : (0 : Int) ≤ (j : Int) := by omega
   constructor
   · ext u
@@ -187,7 +187,6 @@ theorem allTerminate_of_noCycle {g : FlowGrid} (hg : WF g) (hnc : NoCycle g) {fu
   have hab' : iterDn g a c = iterDn g b c := by
     have h1 := (lt_of_valid (hvalid a (by omega))).2
     have h2 := (lt_of_valid (hvalid b (by omega))).2
-    simp only at hab
     rw [← h1, ← h2, hab]
   have key : ∀ a b : Nat, a < b → b ≤ fuel → iterDn g a c = iterDn g b c → False := by
     intro a b hlt hb h
